@@ -69,6 +69,8 @@ Collision(wf) ==
 TypeCompatible(wf) ==
   \A s \in StepIds(wf) : KindOf(wf, s) = "plugin" =>
      LET inp == wf.steps[s].fields["input"] IN
+     \* a stop condition needs somebody to tell: it is a disabled property of a step whose plugin declares no cancel signal
+     /\ ("stop_if" \in DOMAIN wf.steps[s].fields => wf.steps[s].handler)
      /\ inp.t = "map" /\ "id" \in DOMAIN inp.kids
      /\ \A f \in DOMAIN inp.kids : PluginInputType(f) # "unknown"
                                     /\ (inp.kids[f].t \in {"lit", "ref"} => Compat(PluginInputType(f), inp.kids[f].ty))
